@@ -174,8 +174,7 @@ Fixpoint decl_names (kind : string) (p : list sexp) : option (list string) :=
   | SAtom _ :: r => decl_names kind r
   end.
 
-Definition java_load (text : string) : option jproblem :=
-  let lines := split_on ch_nl text in
+Definition java_load_lines (lines : list string) : option jproblem :=
   let body := join s_nl (filter (fun l => negb (starts_hash l)) lines) in
   match sx_parse_all body with
   | None => None
@@ -186,6 +185,7 @@ Definition java_load (text : string) : option jproblem :=
       | _, _ => None
       end
   end.
+Definition java_load (text : string) : option jproblem := java_load_lines (split_on ch_nl text).
 
 (* ---- run(): the lines printed, each followed by a line separator ---- *)
 (* [unlines] (Backend/SugarText.v): each println appends the line separator *)
